@@ -29,6 +29,7 @@ import c19lib as L
 from c19lib import cps
 
 PROP = 'C19'
+MODEL_CREDS = {'namedtuple': 'tupleSub', 'tuple_subclass': 'tupleSub'}     # the model's Creds constructor
 TUPLE_CREDS = ('tuple', 'namedtuple', 'tuple_subclass')     # credential forms that are tuples (model: Creds.tuple)
 ITER_OPS = {'IterEnumerateInstances': ('OpenEnumerateInstances', 'PullInstancesWithPath', 'EnumerateInstances'),
             'IterEnumerateInstancePaths': ('OpenEnumerateInstancePaths', 'PullInstancePaths', 'EnumerateInstanceNames')}
@@ -83,6 +84,13 @@ def call_args(op, o, special):
     if special == 'char16':
         i = pywbem.CIMInstance('C_Chr', {'c': pywbem.Char16('é'), 's': 'x'})
         return (i,), {}
+    if special == 'bad_max':
+        # validation failures of the pull operations (inside the try statement: they must be counted, recorded, logged)
+        args, kw = call_args(op, o, None)
+        bad = rng.choice([-1, -100, None, 'x', 1.5])
+        if op.startswith('Pull'):
+            return (rng.choice([args[0], None, ('ctx',), 'ctx']), bad), kw
+        return args, dict(kw, MaxObjectCount=bad if bad is not None else -5)
     if special == 'bad_arg':
         args, kw = call_args(op, o, None)
         bad = rng.choice([None, 42, 1.5, L.Foreign(), b'\xff', ['x']])
@@ -275,7 +283,11 @@ def gen_case(rng, thorough):
             op, special = 'CreateInstance', 'char16'
         elif y < 0.17:
             special = 'bad_arg'
-        elif y < 0.22:
+        elif y < 0.20:
+            op = rng.choice(['PullInstances', 'PullInstancesWithPath', 'PullInstancePaths', 'OpenEnumerateInstances',
+                             'OpenQueryInstances'])
+            special = 'bad_max'
+        elif y < 0.25:
             op = rng.choice(sorted(ITER_OPS))
         aseed = rng.getrandbits(32)
         objs = gen_objs(aseed)
@@ -657,7 +669,7 @@ def model_request(case, bare, obs):
         at_add = ['TestClientRecorder', 'LogOperationRecorder']
     rpost = re.sub(r"recorders=\[[^\]]*\]\)$", 'recorders=%s)' % L.afmt(at_add).replace('\\', '\\\\'), r[1])
     r = (r[0], rpost)
-    conn = {'creds': {'kind': 'tuple' if case['creds'] in TUPLE_CREDS else case['creds'], 'user': cps(L.afmt(L.USER)), 'pw': cps(L.afmt(L.PASSWORD))},
+    conn = {'creds': {'kind': MODEL_CREDS.get(case['creds'], case['creds']), 'user': cps(L.afmt(L.USER)), 'pw': cps(L.afmt(L.PASSWORD))},
             'strPre': cps(s[0] + 'creds='), 'strPost': cps(s[1]), 'reprPre': cps(r[0] + 'creds='), 'reprPost': cps(r[1]),
             'stats': case['stats'], 'debug': case['debug']}
     recs = []
@@ -1137,6 +1149,40 @@ def real_stats_run(ops):
         _statistics.time = old
 
 
+def stats_oracle(ops, real):
+    """the statistics clauses of the property on the REAL counters: every measured stop is counted exactly once
+    under its name (since the last successful reset), exceptions iff flagged, and min*count <= sum <= max*count"""
+    names = []            # handle index -> name | None (dummy)
+    want = {}
+    for op, out in zip(ops, real['outs']):
+        if op['o'] == 'start':
+            names.append(None if out.get('h') == 'dummy' else common.from_cps(op['n']))
+        elif op['o'] == 'stop' and out.get('stop') is not None and op['i'] < len(names):
+            w = want.setdefault(names[op['i']], [0, 0, 0])
+            w[0] += 1
+            w[1] += 1 if op['e'] else 0
+            w[2] += int(out['stop'])
+        elif op['o'] == 'reset' and out.get('reset'):
+            want = {}
+    bad = []
+    got = {common.from_cps(st['n']): st for st in real['stats']}
+    for name, w in want.items():
+        st = got.get(name)
+        if st is None or [st['count'], st['exc'], int(st['tsum'])] != w:
+            bad.append(({'kind': 'statistics_not_counted_once', 'level': 'OperationStatistic'},
+                        {'name': name, 'expected count/exc/time': w, 'got': st and [st['count'], st['exc'], st['tsum']]}))
+    for name, st in got.items():
+        c = st['count']
+        ok = st['exc'] <= c
+        if c == 0:
+            ok = ok and st['tmin'] is None and int(st['tsum']) == 0
+        else:
+            ok = ok and st['tmin'] is not None and int(st['tmin']) * c <= int(st['tsum']) <= int(st['tmax']) * c
+        if not ok:
+            bad.append(({'kind': 'statistics_invariant_broken', 'level': 'OperationStatistic'}, {'name': name, 'stat': st}))
+    return bad
+
+
 def stats_stream(run, n):
     rng = run.rng
     items = [gen_stats_ops(rng) for _ in range(n)]
@@ -1149,6 +1195,8 @@ def stats_stream(run, n):
         run.count('stats:stops-measured', stopped)
         run.count('stats:runtime-errors', sum(1 for o in real['outs'] if 'exc' in o))
         run.count('stats:resets-refused', sum(1 for o in real['outs'] if o.get('reset') is False))
+        for sig, observed in stats_oracle(ops, real):
+            run.violate(sig, case, observed)
         if a != real:
             run.disagree(case, a, real, 'statistics arithmetic')
         if not consistent:
@@ -1261,14 +1309,23 @@ def real_logcfg(item):
 def logcfg_stream(run, n):
     rng = run.rng
     items = [gen_logcfg(rng) for _ in range(n)]
-    reals, reqs = [], []
+    reals, reqs, kept = [], [], []
     for item in items:
         real, s_, r_ = real_logcfg(item)
         ct = creds_text(item['creds'])
         sp, rp = split_around(s_, 'creds=' + ct), split_around(r_, 'creds=' + ct)
+        if item['creds'] != 'none':
+            for where, text in (('str', s_), ('repr', r_)):
+                if L.PASSWORD in text:
+                    run.violate({'kind': 'password_leak', 'where': where, 'creds_type': item['creds']},
+                                {'stream': 'logcfg', 'item': item}, {'where': where})
+        if sp is None or rp is None:
+            run.disagree({'stream': 'logcfg', 'item': item}, {'creds_text': ct}, {'str/repr': 'expected text absent'},
+                         'credential text in str()/repr() of the connection')
+            continue
         at_add = ['TestClientRecorder', 'LogOperationRecorder'] if item['tcr'] else ['LogOperationRecorder']
         rpost = re.sub(r"recorders=\[[^\]]*\]\)$", 'recorders=%s)' % L.afmt(at_add).replace('\\', '\\\\'), rp[1])
-        conn = {'creds': {'kind': 'tuple' if item['creds'] in TUPLE_CREDS else item['creds'],
+        conn = {'creds': {'kind': MODEL_CREDS.get(item['creds'], item['creds']),
                           'user': cps(L.afmt(L.USER)), 'pw': cps(L.afmt(L.PASSWORD))},
                 'strPre': cps(sp[0] + 'creds='), 'strPost': cps(sp[1]), 'reprPre': cps(rp[0] + 'creds='),
                 'reprPost': cps(rpost), 'stats': False}
@@ -1276,8 +1333,9 @@ def logcfg_stream(run, n):
         reqs.append({'op': 'logcfg', 'parentDebug': item['parentDebug'], 'userHandlers': item['userHandlers'],
                      'tcr': item['tcr'], 'conn': conn, 'calls': calls})
         reals.append(real)
+        kept.append(item)
     answers = common.run_driver(PROP, reqs)
-    for item, real, a in zip(items, reals, answers):
+    for item, real, a in zip(kept, reals, answers):
         case = {'stream': 'logcfg', 'item': item}
         run.case(case, nontrivial=any(o['exc'] is None for o in real['calls']))
         for o in real['calls']:
@@ -1384,6 +1442,12 @@ def search(run):
 
 def replay(payload):
     case = payload['case']
+    if case.get('stream') == 'stats':
+        real, _ = real_stats_run(case['ops'])
+        bad = stats_oracle(case['ops'], real)
+        if bad:
+            return False, 'property C19 FAILS on this statistics history: ' + json.dumps(bad[0][0]) + ' ' + json.dumps(bad[0][1])
+        return True, 'property C19 holds on this statistics history'
     if case.get('stream'):
         return True, 'replay of K stream items is not an oracle case'
     bare = execute(case, False)
